@@ -21,17 +21,13 @@ WORKERS = 8
 
 # ----------------------------------------------------------------------------- configs
 
-# (name, cfg, N for thorough or None, simulate spec for quick or None)
-EQUAL_RUNS = [
-    ("list",   "MC_Equal_list.cfg"),
-    ("vec",    "MC_Equal_vec.cfg"),
-    ("hash",   "MC_Equal_hash.cfg"),
-    ("hset",   "MC_Equal_hset.cfg"),
-    ("struct", "MC_Equal_struct.cfg"),
-    ("box",    "MC_Equal_box.cfg"),
-    ("mixed",  "MC_Equal_mixed.cfg"),
-    ("leaf",   "MC_Equal_leaf.cfg"),
-]
+def equal_runs(tier, seed, work):
+    """(name, cfg) of the TLC runs of Equal.tla; the seed selects the sparse sub-tree of family "sim"."""
+    q = cfg_variant("MC_Equal_quick.cfg", work, {"SEED": seed, "BRANCH": 4}, f"s{seed}")
+    if tier == "quick":
+        return [("quick", q)]
+    t = cfg_variant("MC_Equal_thorough.cfg", work, {"SEED": seed, "BRANCH": 7}, f"s{seed}")
+    return [("quick", q), ("deep", t)]
 
 
 def cfg_variant(cfg, work, subst, suffix):
@@ -72,7 +68,7 @@ def eq_observations(c, probes):
         x, y = hs[int(xi) - 1], hs[int(yi) - 1]
         for p in probes:
             g = p["grp"]
-            if g == "hash" and hashed != "1":
+            if g == "hash" and not (hashed == "2" or (hashed == "1" and p["name"] == "tryget")):
                 continue
             if g == "eqv":
                 if eqv == "-":
@@ -149,6 +145,8 @@ def judge_equal(r, pairs, stats):
         for o, got, d in bad:
             stats["mismatches"] += 1
             mc, mv = micro_case(case, head, o, got, d)
+            grp = stats["groups"].setdefault(mc["tag"], [0, mc["steps"][-1]["src"], mv["why"]])
+            grp[0] += 1
             f = vlib.match_finding(PROP, mc, mv, r.findings)
             if f:
                 r.known.setdefault(f["key"], f["what"])
@@ -199,8 +197,9 @@ def equivalence_defects(obs, emits):
 
 def run_equal(r, tier, seed, work, stats):
     runs = []
-    for name, cfg in EQUAL_RUNS:
-        runs.append((name, vlib.run_tlc("Equal", cfg, os.path.join(work, "eq_" + name), workers=WORKERS, timeout=900)))
+    for name, cfg in equal_runs(tier, seed, work):
+        runs.append((name, vlib.run_tlc("Equal", cfg, os.path.join(work, "eq_" + name), workers=WORKERS,
+                                        timeout=1200)))
     allc = []
     seen = set()
     for name, res in runs:
@@ -219,7 +218,7 @@ def run_equal(r, tier, seed, work, stats):
 
 def new_stats():
     return {"observations": 0, "mismatches": 0, "failing_cases": 0, "passing": [], "by_finding": {},
-            "unreported_violations": 0}
+            "unreported_violations": 0, "groups": {}}
 
 
 def run(tier, seed):
@@ -227,8 +226,11 @@ def run(tier, seed):
     r = vlib.Result(PROP, tier, seed)
     stats = new_stats()
     run_equal(r, tier, seed, work, stats)
-    r.notes.append({k: v for k, v in stats.items() if k != "passing"})
-    vlib.log(json.dumps({k: v for k, v in stats.items() if k != "passing"}))
+    r.notes.append({k: v for k, v in stats.items() if k not in ("passing", "groups")})
+    vlib.log(json.dumps({k: v for k, v in stats.items() if k not in ("passing", "groups")}))
+    if os.environ.get("C11_DEBUG"):
+        with open(os.path.join(work, "groups.json"), "w") as f:
+            json.dump(stats["groups"], f, indent=1)
     return r.finish()
 
 
